@@ -30,6 +30,7 @@ META = {
 
 F7_KEY = "C05:failed-rollforward-leaves-state-root"
 NO0_KEY = "C05:blockno-zero-child-accepted"
+NIL_KEY = "C05:query-nil-deref-side-block-above-best"
 
 
 def corpus_cases():
@@ -82,6 +83,14 @@ def classify(case, out):
     """Direct-predicate failures of a case -> (key, what) or None."""
     preds = [(i, p) for i, st in enumerate(out["steps"]) for p in st["pred"]]
     if not preds:
+        # P8: no query of the public surface may panic
+        for i, st in enumerate(out["steps"]):
+            for nm, rc in st["rcpt"].items():
+                if rc[1] == "panic":
+                    return NIL_KEY, "getReceipts(%s) panics (nil main-chain block at the number of a stored side-branch block) at step %d" % (nm, i)
+            for t, s in st["tx"].items():
+                if s[0] == "panic":
+                    return NIL_KEY, "getTx panics (nil main-chain block) at step %d" % i
         return None
     if any((b.get("no") == 0) for b in case["blocks"]):
         return NO0_KEY, "block with BlockNo 0 whose parent is the tip is connected as main chain: " + preds[0][1]
